@@ -97,6 +97,13 @@ func (eng *RedisEmu) RequestTermination() {
 		eng.cancelFn()
 		eng.cancelFn = nil
 	}
+
+	// The clients of this emulator are disconnected: after termination nobody
+	// can read or modify the data any more. Blocked commands are aborted, a
+	// command that is executing right now completes first.
+	if eng.dss != nil {
+		requestAllCxnClose(eng.dss)
+	}
 }
 
 func (eng *RedisEmu) killSignalMonitor() {
@@ -228,7 +235,20 @@ func (eng *RedisEmu) startServer() {
 				break
 			}
 			eng.l.Infof("client connected: %s", connection.RemoteAddr().String())
-			newClientCxn(eng.l, connection, dispatcher)
+
+			// termination waits for the connection to end (this goroutine still
+			// holds its own count, so the wait group can't be at zero here)
+			eng.wg.Add(1)
+			cc := newClientCxn(eng.l, connection, dispatcher, eng.wg.Done)
+
+			// a connection accepted while termination was being requested
+			// may have missed the disconnect of all clients
+			eng.mu.Lock()
+			terminating := (eng.server == nil)
+			eng.mu.Unlock()
+			if terminating {
+				cc.RequestClose()
+			}
 		}
 	}()
 }
